@@ -98,7 +98,8 @@ SpecTables(s) ==
                         AxisOfFace(s, f) = d /\ ~IsInteriorFace(s, f)})],
     corners  |-> CornersSeq(Len(s)),
     cci      |-> [i \in 1..NumFaces(s) |-> LET d == AxisOfFace(s, i - 1)
-                     IN << CornerIdx(Len(s), d, 1), CornerIdx(Len(s), d, 2) >>] ]
+                     IN << CornerIdx(Len(s), d, 1), CornerIdx(Len(s), d, 2) >>],
+    nf |-> NumFaces(s), nc |-> NumCells(s), fshape |-> [d \in Axes(s) |-> FaceShape(s, d)], fidx_ok |-> 1, kinds |-> "iiii" ]
 
 -----------------------------------------------------------------------------
 (* The clauses of C07, evaluated on a table T.                             *)
@@ -118,6 +119,10 @@ CellsWellNumbered(T) ==
         = {Unrank(T.shape, r) : r \in 0..NumCells(T.shape) - 1}
 
 FaceCounts(T) ==
+  /\ T.nf = NumFaces(T.shape) /\ T.nc = NumCells(T.shape)
+  /\ T.fshape = [d \in Axes(T.shape) |-> FaceShape(T.shape, d)]
+  /\ T.fidx_ok = 1                       \* array-shaped face numbering = the per-axis face lists, first axis fastest
+  /\ T.kinds = "iiii"                    \* index tables are signed integer arrays (-1 marks "no face")
   /\ Len(T.nfpa) = Len(T.shape)
   /\ \A d \in Axes(T.shape) : T.nfpa[d] = NumFacesAx(T.shape, d)
   /\ \A d \in Axes(T.shape) : Len(T.faces[d]) = T.nfpa[d]
